@@ -324,3 +324,105 @@ _ARM_ASSUME = "read_bytes / patch_function replaced by recorders (32-bit address
 for _n in ["c16_a32", "c16_t32_aligned", "c16_t32_unaligned"]:
     H(_n, module="verif_arm.rs", props=["C16"], fns=_ARM_FNS, min_obligations=9)
 H("c16_bool", module="verif_arm.rs", props=["C16", "C10"], fns=_ARM_FNS)
+
+# ------------------------------------------------------------------------------------------------
+# C10.gate: one harness per member of the enumerated signature family
+import gen_gate  # noqa: E402
+
+
+def _gate_files(repo, skip=()):
+    fam, text = gen_gate.generate("thorough")
+    return {"verif_gate": dict(parent=INJ, dest="interface/injector/verif_gate.rs", modline="mod verif_gate;", text=text)}
+
+
+GENERATORS["gate"] = _gate_files
+_QUICK_SIGS = {s_ for s_, _b in gen_gate.family("quick")}
+for _i, (_sig, _b) in enumerate(gen_gate.family("thorough")):
+    H("gate_%d" % _i, props=["C10", "C05"], module_dest="interface/injector/verif_gate.rs", generator="gate", group="gate", extra_modules=[MI, "verif_internal.rs"],
+      fns=[(INJ, "will_return_boolean"), (INJ, "signature_returns_bool")], expects_panic=(not _b), covers=(["COVER:end"] if _b else []), signature=_sig,
+      tiers=("quick", "thorough") if _sig in _QUICK_SIGS else ("thorough",),
+      bounded="signature family enumerated exhaustively from the grammar in contracts/gen_gate.py (not all strings)",
+      replay=(lambda vals, verif, _s=_sig, _e=_b: _replay_bin("c10_gate", [_s, "accept" if _e else "refuse"], verif)))
+
+MAC_FNS = [(MAC, "__assert_future_output")]
+_SIGB = "enumerated family of 16 function types (arity 0-3, one parameter type, return type, & vs &mut, unsafe, extern C / system) x every macro form; type names are rendered by the compiler that builds the harness"
+for _n in ["c09_sig_func_explicit", "c09_sig_func_sugar", "c09_sig_unchecked", "c09_family_distinct"]:
+    H(_n, module="verif_sigs.rs", props=["C09"], fns=MAC_FNS, bounded=_SIGB)
+
+_ASYNC_FNS = [(INJ, "when_called_async"), (INJ, "when_called_async_unchecked"), (INJ, "will_return_async"), (INJ, "will_return_async_unchecked")]
+_ASB = "enumerated future shapes (free fn / method, by-value / by-reference parameters; outputs (), u32, bool, 64-byte struct)"
+for _n in ["c14_funnel_unit", "c14_funnel_u32", "c14_funnel_bool_param", "c14_funnel_big", "c14_funnel_method_val", "c14_funnel_by_ref_unchecked"]:
+    H(_n, module="verif_async.rs", extra_modules=["verif_internal.rs"], props=["C14", "C01"], fns=_ASYNC_FNS, bounded=_ASB)
+for _n in ["c14_ret_fresh", "c14_sig", "c14_siblings"]:
+    H(_n, module="verif_async.rs", extra_modules=["verif_internal.rs"], props=["C14"], fns=MAC_FNS, bounded=_ASB)
+
+H("c05_nomem", module="verif_amd64.rs", props=["C05", "C01", "C11"], fns=_LIFE_FNS, expects_panic=True, covers=[], covers_unreachable=["COVER:installed-without-memory"])
+H("c05_mprotect_fails", module="verif_amd64.rs", props=["C05", "C01"], fns=_LIFE_FNS, expects_panic=True, covers=[], covers_unreachable=["COVER:installed-despite-mprotect-failure"])
+H("c17_inject", module="verif_common.rs", props=["C17", "C03"], fns=[(COM, "inject_asm_code"), (COM, "clear_cache")], covers=["COVER:end", "COVER:full"])
+for _h in ("c11_a64_range",):
+    HARNESSES[_h]["props"] += ["C13", "C17", "C03"]
+HARNESSES["c15_long_jump"]["props"] += ["C13"]
+
+# ------------------------------------------------------------------------------------------------
+TB_RUSTC = "rustc semantics taken as given: field drop order, destructors run on unwind, Vec::push/pop order, monomorphisation gives distinct items distinct addresses (no identical-code folding at opt-level 0)"
+claim("C03",
+      "Proof: frame conditions over every byte of the modelled code memory (nondeterministic index over the whole arena, symbolic placement) around the real x86-64 installers, PatchGuard::drop, inject_asm_code and the AArch64 apply_branch_patch: nothing outside the entry patch (<= 12 bytes on x86-64, 12 on A64) and the trampoline mapping changes; after drop everything outside the released trampoline is restored. "
+      "Every dereference of the real code is bounds-checked by CBMC, so a write anywhere else is itself a reported failure. Composition over histories by lemma_frame_union.",
+      "Assumes CBMC's object memory model (64-byte arena + far object stand for the process's code mappings) and that distinct functions / generic instantiations / sibling poll functions are distinct addresses (C14.siblings.distinct shows it for the harness crate).",
+      trusted_base=[TB_KANI, TB_SHIM, TB_HOOK, TB_X86, TB_RUSTC])
+claim("C05",
+      "Proof of the function-level obligations that unwinding relies on: every library-raised refusal (signature mismatch through all checked entry points, non-bool target over the enumerated signature family, checked/unchecked pairing, no memory, mprotect failure, A64 out-of-range) is raised before any OS event with code memory untouched; "
+      "CallCountVerifier::drop never panics while a panic is in flight (all counts / expectations); the whole InjectorPP drop glue run under panicking()==true with unsatisfied expectations restores, releases, unlocks and raises nothing; the verdict panic is raised only after restoration.",
+      "Not decided here: the unwinding mechanism itself (Kani has none): that destructors of live values run on unwind and that a second panic aborts is Rust semantics. The poisoned arm of NoPoisonMutex::lock is covered by type only (Kani's std is panic=abort). A failed mprotect leaves the freshly mapped trampoline behind (not claimed by C05/C12).",
+      trusted_base=[TB_KANI, TB_SHIM, TB_HOOK, TB_RUSTC])
+claim("C06",
+      "Proof per arm of fake! that carries `times` (28 on the pinned tree, enumerated from the source at check time): for all N, all counter values and all arguments, over two consecutive calls: admitted iff `when` holds and fewer than N matching calls came before; admitted calls are counted exactly once by exactly one atomic RMW; rejected calls are not counted and have no side effect; "
+      "CallCountVerifier::drop panics iff count != N and no panic is in flight. The step to k calls / any interleaving is the Verus lemma over these contracts plus the axiom that atomic RMWs on one location are totally ordered.",
+      "Concurrency is discharged by the atomic-RMW axiom + the footprint obligation (exactly one fetch_add, no load/store), not by exploring schedules. That the message names both numbers is a syntactic scan (reported as such).",
+      trusted_base=[TB_KANI, TB_HOOK, "atomic read-modify-write operations on one location are indivisible and totally ordered (C++11/Rust memory model)"])
+claim("C08",
+      "Proof per arm, for every arm found in macro_rules! fake at check time (52 on the pinned tree; the count is measured): rustc type-checks one canonical instantiation (C08.arm<k>.compiles), and Kani discharges the common meaning for all N / counter / argument values over two consecutive calls: `when` guards the call, a rejected call has no side effect, `assign` runs exactly once before the result is produced, `returns` is evaluated on every call with the arguments in scope, `times` is a call budget, a verifier exists iff `times` is given.",
+      "One canonical operand set per arm (fn(a: &mut i32, b: i32) -> i32 / ()); the arm is identified by its matcher, so an added arm is picked up automatically and an arm the generator cannot parse makes the check undecided, not green.",
+      trusted_base=[TB_KANI, TB_HOOK, "rustc as the checker of well-typedness of the expansions"])
+claim("C09",
+      "Gate: through the real will_execute_raw / will_execute / will_return_async, for ALL pairs of printable-ASCII signature strings up to length 8 (12 in the thorough tier): identical text => installed exactly once, any difference => signature-mismatch panic before any OS event; checked/unchecked pairing refused; null pointer refused by FuncPtr::new. "
+      "Macros: every func!/closure!/fake!/async macro form records type_name::<T>() for each member of an enumerated 16-type family (unchecked forms record \"\"), and all ordered pairs of structurally different members have different names.",
+      "Bounded in string length (labelled); the type family is enumerated, not all Rust types; type names are rendered by the compiler that builds the harness (trusted); pairs differing only in lifetime spelling are not judged.",
+      trusted_base=[TB_KANI, TB_HOOK, "std::any::type_name rendering by rustc"])
+claim("C10",
+      "Gate: one obligation per member of a signature family enumerated from a grammar (110 quick / 746 thorough members: prefixes x parameter lists x return types incl. returns that merely END in `-> bool`): the real will_return_boolean accepts iff the derivation says the return type is exactly bool, and refuses before any OS event otherwise. "
+      "Stub: for both values the x86-64 trampoline is exactly `mov rax, imm32(v); ret` (only rax written, return address popped as by a normal return), the A64 one decodes to `MOVZ X0,#v; RET`, the 32-bit ARM one branches to return_true/return_false; the requested value is what reaches the installer.",
+      "The gate is decided on the enumerated family (exhaustive over the grammar, not over all strings); argument-independence and 'no other effect' follow from the instruction effect tables (trusted).",
+      trusted_base=[TB_KANI, TB_SHIM, TB_HOOK, TB_X86, TB_A64])
+claim("C11",
+      "Proof (Verus, unbounded): the real allocate_jit_memory_unix loop, translated by rules R1-R5, for every target address below 2^47, every page size in {4K,16K,64K} and ANY mmap behaviour (failure or any fresh address, hint not honoured): returns a fresh mapping within the reach of the entry branch (x86-64: +-128 MiB so rel32 always applies; AArch64/Linux: [-2^27, 2^27); macOS: +-2 GiB), every rejected placement is unmapped, the final panic is reached only with nothing left mapped, no overflow, termination. "
+      "Kani: for every trampoline the contract allows, the real A64 apply_branch_patch writes B landing exactly on it and never panics; every other displacement is refused with the entry untouched; maybe_emit_long_jump for all pc/target within +-(4 GiB - 4 KiB).",
+      "Assumed: the mmap/munmap/sysconf specifications (external_body); u64::abs_diff specification; user addresses below 2^47; R4/R5 helper functions int_to_ptr / vpanic are trusted stubs. Windows allocator not covered.",
+      trusted_base=["Verus 0.2026.09.13 / Z3", TB_KANI, TB_SHIM, TB_A64])
+claim("C12",
+      "Proof: the guard returned by every installer owns exactly the (address, length) mmap returned for that installation; PatchGuard::drop calls munmap exactly once with exactly that pair (the OS model rejects anything else); a whole real lifetime leaves the live set unchanged; the allocator's frame (Verus) adds exactly one mapping; cycles and any number of installs by lemma_live_set + ownership (each guard dropped once: C02.order.once).",
+      "Trusted: Rust ownership drops each guard exactly once (a scan for mem::forget / ManuallyDrop in src/ is not needed: the order obligation counts the drops). An installation that fails after its trampoline was mapped (mprotect failure) leaks that mapping; the property speaks of successful installations.",
+      trusted_base=[TB_KANI, TB_SHIM, TB_RUSTC])
+claim("C13",
+      "Proof modulo the ISA effect tables: the redirect consists only of byte sequences characterised exactly by the encoder/trampoline obligations, and for all addresses their architectural effect is: x86-64 writes nothing but rax (short form: nothing at all), no stack or memory access; A64 trampoline writes only x9, the Linux entry branch nothing, the macOS long entry only x16. Hence argument, result, hidden-return-slot, callee-saved registers, stack pointer and stack arguments are untouched.",
+      "The last step (no instruction writes them => they are preserved) uses the trusted effect tables. The long x86 form clobbers rax/al, which the SysV variadic convention uses for the vector-register count; the property's register list does not include it (noted). 32-bit ARM is decided under C16.",
+      trusted_base=[TB_KANI, TB_X86, TB_A64])
+claim("C14",
+      "Proof of the components, composition on paper: when_called_async / _unchecked ask the core to patch exactly <F as Future>::poll of the awaited expression's future (enumerated shapes) with exactly the function async_return! generated; that function returns Poll::Ready(value) with the value evaluated afresh at every call; both macros record the same signature iff the output types are written the same, and a mismatch is refused before any write (async gate, all strings up to the bound); sibling async functions are distinct poll functions. With C01 (entry lands on the replacement), C03 (frame) and C02 (restore) this gives the statement.",
+      "Trusted: calling `fn() -> Poll<T>` in place of `poll(self, cx)` is ABI-compatible (same return convention, extra arguments ignored); no identical-code folding of two poll bodies. Future shapes are enumerated, executors/threads are not modelled.",
+      trusted_base=[TB_KANI, TB_HOOK, TB_RUSTC])
+claim("C15",
+      "Proof against an independent A64 decoder/interpreter, all inputs symbolic, loops of constant trip count fully unwound: bit helpers; MOVZ/MOVK/BR/RET emitters for all operands; the 5-instruction trampoline for ALL 2^64 fake addresses ends in BR x9 with x9 == fake and writes only x9; the boolean stub is MOVZ X0,#v; RET; the Linux entry is B landing exactly on the trampoline for every displacement the allocator contract allows and every other displacement is refused, not wrapped; the macOS entry (T5) is B or ADRP/ADD/BR x16 landing exactly on the target for all pc/target within +-(4 GiB - 4 KiB).",
+      "Trusted: the decoder/interpreter table; that the files compiled for the host (T1 deletes only the #![cfg(target_arch)] line) behave as on AArch64 (pure integer/bit code). The dsb/isb inline asm is cfg'd out on the host.",
+      trusted_base=[TB_KANI, TB_A64, TB_SHIM])
+claim("C16",
+      "Proof against independent A32/T32 decoders for ALL 2^32 x 2^32 (target, fake) pairs in each of the three entry cases: the patch decodes to (NOP,) LDR literal + BX through the loaded register; the word actually read (Align(PC,4) rule) is the one holding the fake's address, Thumb bit included; saved and written ranges are exactly [entry & !1, +12); the boolean form delegates to return_true / return_false. "
+      "The register clause fails on the pinned tree (r7 in Thumb state, r9 in ARM state are callee-saved): recorded as two known findings; any other preserved register would still be reported.",
+      "read_bytes / patch_function are replaced by recorders (32-bit addresses are not host pointers); no 32-bit ARM target or emulator exists here, so nothing is executed.",
+      trusted_base=[TB_KANI, TB_A32])
+claim("C17",
+      "Proof on the Linux variants: event log of the flush primitive with a content snapshot: after inject_asm_code exactly [dest, dest+len) is flushed and already holds the final bytes; through the real x86-64 installers and PatchGuard::drop every arena byte that changed (nondeterministic index) is covered by a later flush whose snapshot equals its final value, and the last event of a restoration is a flush covering the restored range; same for the A64 trampoline writer and apply_branch_patch.",
+      "Not covered: the effect of __clear_cache itself, the dsb sy; isb inline asm (cfg'd out on the host), Windows, and macOS, whose patch_function needs the mach2 crate (absent offline); on macOS trampoline contents go through inject_asm_code whose clear_cache is empty there (reading note, not claimed).",
+      trusted_base=[TB_KANI, TB_SHIM])
+for _p, _extra in (("C02", [TB_RUSTC]), ("C04", ["std::sync::Mutex: at most one guard at a time under every schedule (assumed library contract)"]), ("C07", [])):
+    PROPS[_p]["trusted_base"] = PROPS[_p].get("trusted_base", []) + _extra
